@@ -223,8 +223,11 @@ def _run(prop, tier, seed, replay, here, repo, env, binp, scratch, cfg, t0):
         "wall_s": round(time.time() - t0, 2),
         "violations": nviol,
     }
-    os.makedirs(os.path.join(here, "evidence"), exist_ok=True)
-    with open(os.path.join(here, "evidence", prop + ".json"), "w") as f:
+    # runs against a seeded change (seeded/run_all.py) write their evidence elsewhere: the files under evidence/ always
+    # describe the tree in /repo
+    evdir = os.environ.get("VERIF_EVIDENCE_DIR") or os.path.join(here, "evidence")
+    os.makedirs(evdir, exist_ok=True)
+    with open(os.path.join(evdir, prop + ".json"), "w") as f:
         json.dump(ev, f, indent=1)
     print("%s: %d/%d obligations discharged, %d known findings, %d violations, %.1fs" % (prop, discharged, total, len(knowns), nviol, time.time() - t0))
     return rc
